@@ -103,7 +103,20 @@ def delegator_runtime(chk, F, rule, cfg):
     for fn in pin:
         def on_cell(x):
             return mentions(x, lambda y: y[0] == 'ref' and y[1][1][-1:] == (('f', 'default_impl_delegator_cell'),))
+        def observed_empty(p):
+            # (`if cell.get().is_none() { .. cell.set(x) .. }` under the exclusive borrow of a Pin<&mut>: on such a path the cell *is* empty,
+            #  filling it by hand cannot fail)
+            for d in p.decisions:
+                inner, t = L.truth_of(d)
+                if t is not None and is_call(inner, r'Option::(is_none|is_some)$') and mentions(inner, lambda x: is_call(x, r'OnceCell::get$') and on_cell(x)) and (inner[1].endswith('is_none') == t):
+                    return True
+                v = strip(d.value)
+                if v[0] == 'discr' and is_call(strip(v[1]), r'OnceCell::get$') and on_cell(strip(v[1])) and symex.decision_variant(F, d) == 'None':
+                    return True
+            return False
         for p in symex.Interp(F).run(fn):
+            if p.outcome[0] != 'return' and observed_empty(p):
+                continue
             if p.outcome[0] != 'return':
                 # the cell is a cache that outlives the call and is shared with the &self / &mut self accessors: finding it filled is the
                 # normal case from the second delegation on - it must never be a reason to panic
@@ -113,7 +126,7 @@ def delegator_runtime(chk, F, rule, cfg):
                 continue
             must = [e.data[1] for e in p.calls(r'^core::(option::Option|result::Result)::(unwrap|expect)$')
                     if e.data[2] and mentions(e.data[2][0], lambda y: is_call(y, r'OnceCell::(set|try_insert)$') and on_cell(y))]
-            chk.ob(rule, 'Pin receivers: a cell that is already filled is used, never a reason to panic', not must, config=cfg, fn=fn, site='pin:filled-panics',
+            chk.ob(rule, 'Pin receivers: a cell that is already filled is used, never a reason to panic', not must or observed_empty(p), config=cfg, fn=fn, site='pin:filled-panics',
                    what='to_delegator demands that filling the cell by hand succeeds (%s)' % [m_.rsplit('::', 1)[-1] for m_ in must], found=must,
                    expected='get_or_init, or set / try_insert with the already-filled case handed on')
             r = strip(p.outcome[1])
